@@ -38,7 +38,7 @@ def rule_update_table(ctx):
              Atom("newer", "bool", a_newer, [True, False]), call_atom("signature", ["Signed::verify"])]
     ins = [c["bb"] for c in T.calls() if c["q"].endswith("HashMap::insert") and chain(T.args_of(c)[0])[1][-1:] == ["0"]]
     ver = [c["bb"] for c in T.calls() if c["q"].endswith("Signed::verify")]
-    errs = [bi for bi, b in enumerate(f.blocks) for s in b["s"] if s["k"] == "assign" and s["p"]["l"] == 0 and s["r"]["k"] == "agg" and s["r"].get("variant") == "Err"]
+    errs = [bi for bi, b in enumerate(f.blocks) for s in b["s"] if s["k"] == "assign" and s["p"]["l"] in Q.ret_locals(f) and s["r"]["k"] == "agg" and s["r"].get("variant") == "Err"]
     head = loop_head(ctx, f, target=ins) if ins else None
     ctx.floor(R, "address-book insert sites", len(ins), 1)
     ctx.floor(R, "signature verification sites", len(ver), 1)
